@@ -99,10 +99,11 @@ public:
     {
       if(data->type != textType || data->ref > 1)
       {
+        Data* newData = (Data*)new char[sizeof(Data) + sizeof(String)];
+        String* string = (String*)(newData + 1);
+        new (string) String(other); // other may be part of the payload that clear() releases
         clear();
-        data = (Data*)new char[sizeof(Data) + sizeof(String)];
-        String* string = (String*)(data + 1);
-        new (string) String(other);
+        data = newData;
         data->type = textType;
         data->ref = 1;
       }
